@@ -122,7 +122,9 @@ func c19Algebra(full bool) []*c19Val {
 	one, two := c19S("1"), c19S("2")
 	vs := []*c19Val{one, two, c19L(one), c19L(one, two), c19L(two, one),
 		c19M("a", one), c19M("a", two), c19M("a", one, "b", two), c19M("b", two, "a", one),
-		c19M("a", c19M("a", one)), c19M("a", c19M("a", one, "b", two)), c19M("a", c19M("b", two))}
+		c19M("a", c19M("a", one)), c19M("a", c19M("a", one, "b", two)), c19M("a", c19M("b", two)),
+		// scalars that differ in letter case only are different values
+		c19S("ab"), c19S("Ab"), c19M("a", c19S("AB"))}
 	if !full {
 		return vs
 	}
